@@ -55,7 +55,7 @@ META = {
                     "recipe list (sampling, no solver verdict on the date text) combined with a symbolic If-None-Match"],
     "bounds": {"quick": {"chars": 2, "body_bytes": 3}, "thorough": {"chars": 3, "body_bytes": 4}},
     "outside": ["longer symbolic inputs; the 4300-digit integer limit, NAME_MAX, recursion depth and similar length-triggered failures are probed only by the "
-                "seven CONCRETE recipes of job recipes/concrete-long-inputs (sampling, no solver verdict)", "Date header", "json documents beyond 'decode + parse' (deep nesting recursion limits)"],
+                "CONCRETE recipes of job recipes/concrete-long-inputs (sampling, no solver verdict)", "Date header", "json documents beyond 'decode + parse' (deep nesting recursion limits)"],
     "expect_kinds": {"all": ["returned", "http-4xx"]},
 }
 
@@ -536,9 +536,40 @@ def _recipe_requests():
             (_arun(req, "form") if iface == "asgi" else req.form).multi_items()
         return run
 
+    def many_fields(body):
+        def run(iface):
+            req = preset_body(make_request(iface, {"content-type": "application/x-www-form-urlencoded"}), body)
+            (_arun(req, "form") if iface == "asgi" else req.form).multi_items()
+        return run
+
+    def ims_under_tz(tz, value):
+        def run(iface):
+            import time as _t
+            old = os.environ.get("TZ")
+            os.environ["TZ"] = tz
+            _t.tzset()
+            try:
+                with tempfile.TemporaryDirectory() as d:
+                    open(os.path.join(d, "f.txt"), "w").write("0123456789")
+                    M_ = WS_ if iface == "wsgi" else AS_
+                    call_app(iface, M_.Files(d), path="/f.txt", headers={"If-Modified-Since": value})
+            finally:
+                if old is None:
+                    os.environ.pop("TZ", None)
+                else:
+                    os.environ["TZ"] = old
+                _t.tzset()
+        return run
+
     # codecs that exist but reject the text in their own way (plain UnicodeError / ValueError, not UnicodeDecodeError / LookupError)
     special = {f"urlencoded-charset-{n}": urlenc(cs, b"a=\xff") for n, cs in (("undefined", "undefined"), ("nul", "a\x00b"), ("idna", "idna"), ("punycode", "punycode"))}
     special.update({f"multipart-charset-{n}": multipart_charset(cs) for n, cs in (("undefined", "undefined"), ("punycode", "punycode"), ("idna", "idna"), ("nul", "a\x00b"))})
+    special["urlencoded-1001-fields"] = many_fields(b"&".join(b"k%d=v" % i for i in range(1001)))
+    special["urlencoded-5000-bare-ampersands"] = many_fields(b"&" * 5000)
+    for tzname, tz in (("east", "JST-9"), ("west", "EST5"), ("far-east", "XXX-14")):
+        for dname, dv in (("year-9999-naive", "Fri, 31 Dec 9999 23:59:59 -0000"), ("year-9999-gmt", "Fri, 31 Dec 9999 23:59:59 GMT"),
+                          ("year-1-naive", "Mon, 01 Jan 0001 00:00:00 -0000"), ("year-1-offset", "Mon, 01 Jan 0001 00:00:00 +2359")):
+            special[f"if-modified-since-{dname}-tz-{tzname}"] = ims_under_tz(tz, dv)
     return {**special, "json-5000-digit-int": json_huge, "json-deeply-nested": json_deep, "json-charset-with-nul": json_charset_nul, "range-5000-digit-int": range_huge,
             "url-port-not-a-number": url_port, "files-segment-longer-than-name-max": files_long_segment, "pages-redirect-with-bad-host": pages_redirect_bad_host}
 
